@@ -34,6 +34,14 @@ def single(types_s, types_t):
         out.append(P(d, "JUMP(a);", [], tag=("jump", s)))
         for w in (8, 16, 32, 64):
             out.append(P(d, "EA = 0x100; mem_store_u%d(EA, a);" % w, [], tag=("store", s, w)))
+            out.append(P(d, "EA = 0x100; mem_store_s%d(EA, a);" % w, [], tag=("store-s", s, w)))
+        for w in (16, 32, 64):
+            out.append(P(d, "EA = 0x100; mem_store_s%d(EA, (int8_t)a);" % w, [], tag=("store-s-cast", s, w)))
+            out.append(P(d, "EA = 0x100; mem_store_u%d(EA, (int8_t)a);" % w, [], tag=("store-u-cast", s, w)))
+        for w in (8, 16, 32, 64):
+            for sg in "su":
+                out.append(P(d + [("int64_t", "r", "local")], "r = mem_load_%s%d(a);" % (sg, w), ["r"], tag=("load-addr", s, sg, w)))
+                out.append(P(d, "mem_store_%s%d(a, 0x1234);" % (sg, w), [], tag=("store-addr", s, sg, w)))
         for f in ("clz32", "clz64", "revbit16", "fbrev", "clo64"):
             out.append(P(d + [("int64_t", "r", "local")], "r = %s(a);" % f, ["r"], tag=("arg", s, f)))
         out.append(P(d + [("int64_t", "r", "local")], "r = conv_round(a, 3);", ["r"], tag=("arg", s, "conv_round")))
